@@ -1308,6 +1308,7 @@ func (d *dealer) syncDelCalleeReg(callee *wamp.Session, regID wamp.ID) (bool, er
 	}
 
 	// Remove the callee from the registration.
+	var found bool
 	for i := range reg.callees {
 		if reg.callees[i] == callee {
 			if d.debug {
@@ -1320,8 +1321,13 @@ func (d *dealer) syncDelCalleeReg(callee *wamp.Session, regID wamp.ID) (bool, er
 				// Delete preserving order.
 				reg.callees = append(reg.callees[:i], reg.callees[i+1:]...)
 			}
+			found = true
 			break
 		}
+	}
+	if !found {
+		// The registration exists, but this session is not one of its callees.
+		return false, fmt.Errorf("no such registration for callee: %v", regID)
 	}
 
 	// If no more callees for this registration, then delete the registration
